@@ -180,3 +180,159 @@ def split_results(out_text):
     if cur:
         cases.append(cur)
     return cases
+
+
+# ---------------------------------------------------------------------------
+# extra ops: block formats, times, copies, reassignIds, route tracing, durations, helper objects
+# ---------------------------------------------------------------------------
+def rand_time(rng, lo=0, hi=20 * 10 ** 9, frac_prob=0.35):
+    if rng.random() < frac_prob:
+        d = rng.choice([1, 25, 48000, 44100, 1001, 30000, 1000000000])
+        return 'fr:%d/%d' % (rng.randrange(lo * d // 10 ** 9, max(lo * d // 10 ** 9 + 1, hi * d // 10 ** 9)), d)
+    step = rng.choice([1, 10 ** 6, 10 ** 8, 10 ** 9])
+    return 'ns:%d' % (rng.randrange(lo // step, max(lo // step + 1, hi // step)) * step)
+
+
+def op_block(rng, pool, docs):
+    if not pool.by_kind['chan']:
+        return None
+    h = rng.choice(pool.by_kind['chan'])
+    td = pool.td.get(h, 3)
+    t = td if (1 <= td <= 5 and rng.random() < 0.85) else rng.randrange(1, 6)
+    st = pool.__dict__.setdefault('blk', {})
+    cnt = pool.__dict__.setdefault('blkcount', {})
+    nblocks = cnt.get((h, t), 0)
+    cnt[(h, t)] = nblocks + 1
+    last = st.get((h, t), 0)
+    if rng.random() < 0.8:
+        idpart = '0 0 0'
+    else:
+        idpart = '%d %d %d' % (rng.choice([td, td, rng.randrange(6)]), rng.choice([0, 0x1001, 0x1002, 0x1000]),
+                               rng.choice([1, 2, 3, nblocks + 1, nblocks + 1]))
+    nxt = last + rng.choice([1, 2, 5]) * 10 ** rng.choice([8, 9])
+    st[(h, t)] = nxt
+    r = rng.random()
+    rt = '-' if (last == 0 and r < 0.5) else ('ns:%d' % last if r < 0.8 else 'fr:%d/%d' % (last * 48000 // 10 ** 9, 48000))
+    du = '-' if rng.random() < 0.6 else rand_time(rng, 0, 3 * 10 ** 9)
+    return 'block %s %d %s %s %s' % (h, t, idpart, rt, du)
+
+
+def op_settimes(rng, pool, docs):
+    k = rng.choice(['prog', 'obj'])
+    if not pool.by_kind[k]:
+        return None
+    h = rng.choice(pool.by_kind[k])
+    st = '-' if rng.random() < 0.6 else rand_time(rng, 0, 5 * 10 ** 9)
+    en = '-' if rng.random() < 0.4 else rand_time(rng, 5 * 10 ** 9, 30 * 10 ** 9)
+    return 'settimes %s %s %s' % (h, st, en)
+
+
+def op_copy(rng, pool, docs):
+    k = rng.choice(KINDS)
+    if not pool.by_kind[k]:
+        return None
+    h = rng.choice(pool.by_kind[k])
+    n = pool.fresh()
+    pool.by_kind[k].append(n)
+    if h in pool.td:
+        pool.td[n] = pool.td[h]
+    return 'copy %s %s' % (h, n)
+
+
+def op_deepcopy(rng, pool, docs):
+    d = rng.choice(docs)
+    n = 'd%d' % len(docs)
+    docs.append(n)
+    base = pool.next
+    pool.next += 150
+    return 'deepcopy %s %s %d' % (d, n, base)
+
+
+def op_deepcopyto(rng, pool, docs):
+    a, b = rng.choice(docs), rng.choice(docs)
+    base = pool.next
+    pool.next += 150
+    return 'deepcopyto %s %s %d' % (a, b, base)
+
+
+def op_reassign(rng, pool, docs):
+    return 'reassign %s' % rng.choice(docs)
+
+
+def op_trace(rng, pool, docs):
+    if not pool.by_kind['prog']:
+        return None
+    return 'trace %s' % rng.choice(pool.by_kind['prog'])
+
+
+def op_fixdur(rng, pool, docs):
+    return 'fixdur %s %s' % (rng.choice(docs), '-' if rng.random() < 0.4 else rand_time(rng, 5 * 10 ** 9, 30 * 10 ** 9))
+
+
+def op_simple(rng, pool, docs):
+    base = pool.next
+    pool.next += 6
+    short = rng.random() < 0.4
+    names = ['h%d' % (base + i) for i in range(6)]
+    pool.by_kind['obj'].append(names[0])
+    pool.by_kind['pack'].append(names[1])
+    pool.td[names[1]] = 3
+    if not short:
+        pool.by_kind['stream'].append(names[2])
+        pool.by_kind['track'].append(names[3])
+    pool.by_kind['chan'].append(names[4])
+    pool.td[names[4]] = 3
+    pool.by_kind['uid'].append(names[5])
+    return 'simple %s %d%s' % (rng.choice(docs + ['-']), base, ' short' if short else '')
+
+
+EXTRA = dict(block=(8, op_block), settimes=(3, op_settimes), copy=(3, op_copy), deepcopy=(2, op_deepcopy),
+             deepcopyto=(2, op_deepcopyto), reassign=(3, op_reassign), trace=(3, op_trace), fixdur=(3, op_fixdur),
+             simple=(3, op_simple))
+
+
+def gen_suffix(rng, pool, docs, nops=10, weights=None):
+    """Mutation ops over an existing pool (used after a copy, when the names are known from a snapshot)."""
+    w = dict(DEFAULT_WEIGHTS)
+    w.update(dict(new=0, silent=0))
+    if weights:
+        w.update(weights)
+    names = list(w)
+    ws = [w[n] for n in names]
+    kinds = [k for k in KINDS if pool.by_kind[k]]
+    lines = []
+    if not kinds:
+        return lines
+    multi = [r for r in RK if RK[r][2] and pool.by_kind[RK[r][0]] and pool.by_kind[RK[r][1]]]
+    single = [r for r in RK if not RK[r][2] and pool.by_kind[RK[r][0]] and pool.by_kind[RK[r][1]]]
+    count = 0
+    guard = 0
+    while count < nops and guard < 1000:
+        guard += 1
+        op = rng.choices(names, ws)[0]
+        k = rng.choice(kinds)
+        h = rng.choice(pool.by_kind[k])
+        line = None
+        if op == 'add':
+            line = 'add %s %s' % (rng.choice(docs), h)
+        elif op == 'remove':
+            line = 'remove %s %s' % (rng.choice(docs), h)
+        elif op in ('addref', 'rmref') and multi:
+            rk = rng.choice(multi)
+            line = '%s %s %s %s' % (op, rk, rng.choice(pool.by_kind[RK[rk][0]]), rng.choice(pool.by_kind[RK[rk][1]]))
+        elif op == 'setref' and single:
+            rk = rng.choice(single)
+            line = 'setref %s %s %s' % (rk, rng.choice(pool.by_kind[RK[rk][0]]), rng.choice(pool.by_kind[RK[rk][1]]))
+        elif op == 'unsetref' and single:
+            rk = rng.choice(single)
+            line = 'unsetref %s %s' % (rk, rng.choice(pool.by_kind[RK[rk][0]]))
+        elif op == 'clearrefs' and multi:
+            rk = rng.choice(multi)
+            line = 'clearrefs %s %s' % (rk, rng.choice(pool.by_kind[RK[rk][0]]))
+        elif op == 'setid':
+            line = 'setid %s %d %d %d' % ((h,) + rand_id(rng, pool, k, h))
+        if line is None:
+            continue
+        lines += [line, 'snapshot']
+        count += 1
+    return lines
